@@ -9,6 +9,9 @@
 (*        condition a = ca ; Attrs b = attr (0 = none); Assign b = asg     *)
 (*   [op |-> "savec", k1, k2, a, b]   Save on a second table with the      *)
 (*        composite key (k1, k2); a zero part is an ordinary key value     *)
+(*   [op |-> "upsertu", k1, k2, u, a, b]  Create with ON CONFLICT (u)      *)
+(*        UpdateAll on that table (u: a unique column that is not the      *)
+(*        key): a row with the same u takes the new a, b and KEEPS its key *)
 (* The position of Session / WithContext calls in the chain (field sess)   *)
 (* has no meaning in the reference: that is the property.                  *)
 (***************************************************************************)
@@ -55,11 +58,18 @@ Step0(st, o) ==
               ELSE [t |-> Put(st.t, st.next, [a |-> o.ca, b |-> b2, del |-> FALSE]), next |-> st.next + 1,
                     ret |-> [id |-> st.next, a |-> o.ca, b |-> b2], wrote |-> {st.next}]
 
-\* st.c: the composite-key table, <<k1, k2>> -> [a, b]
+\* st.c: the composite-key table, <<k1, k2>> -> [a, b, u]   (u unique; Save sets u = 10 * k1 + k2)
 Step(st, o) ==
   IF o.op = "savec"
   THEN [t |-> st.t, next |-> st.next,
-        c |-> [k \in DOMAIN st.c \cup {<<o.k1, o.k2>>} |-> IF k = <<o.k1, o.k2>> THEN [a |-> o.a, b |-> o.b] ELSE st.c[k]],
+        c |-> [k \in DOMAIN st.c \cup {<<o.k1, o.k2>>} |-> IF k = <<o.k1, o.k2>> THEN [a |-> o.a, b |-> o.b, u |-> 10 * o.k1 + o.k2] ELSE st.c[k]],
+        ret |-> [id |-> 0, a |-> o.a, b |-> o.b], wrote |-> {}]
+  ELSE IF o.op = "upsertu"
+  THEN LET hit == {k \in DOMAIN st.c : st.c[k].u = o.u} IN
+       [t |-> st.t, next |-> st.next,
+        c |-> IF hit # {}
+              THEN [k \in DOMAIN st.c |-> IF k \in hit THEN [st.c[k] EXCEPT !.a = o.a, !.b = o.b] ELSE st.c[k]]
+              ELSE [k \in DOMAIN st.c \cup {<<o.k1, o.k2>>} |-> IF k = <<o.k1, o.k2>> THEN [a |-> o.a, b |-> o.b, u |-> o.u] ELSE st.c[k]],
         ret |-> [id |-> 0, a |-> o.a, b |-> o.b], wrote |-> {}]
   ELSE Step0(st, o) @@ [c |-> st.c]
 Strip(s2) == [t |-> s2.t, next |-> s2.next, c |-> s2.c]
@@ -67,7 +77,7 @@ Strip(s2) == [t |-> s2.t, next |-> s2.next, c |-> s2.c]
 ObsOK(s2, o, obs) ==
   /\ obs.err = "nil"
   /\ \A key \in DOMAIN s2.c : \E k \in DOMAIN obs.ctable :
-        obs.ctable[k].k1 = key[1] /\ obs.ctable[k].k2 = key[2] /\ obs.ctable[k].a = s2.c[key].a /\ obs.ctable[k].b = s2.c[key].b
+        obs.ctable[k].k1 = key[1] /\ obs.ctable[k].k2 = key[2] /\ obs.ctable[k].a = s2.c[key].a /\ obs.ctable[k].b = s2.c[key].b /\ obs.ctable[k].u = s2.c[key].u
   /\ Len(obs.ctable) = Cardinality(DOMAIN s2.c)
   /\ \A i \in DOMAIN s2.t : \E k \in DOMAIN obs.table :
         obs.table[k].id = i /\ obs.table[k].a = s2.t[i].a /\ obs.table[k].b = s2.t[i].b /\ obs.table[k].del = s2.t[i].del
@@ -85,16 +95,18 @@ RunFrom(st, ops, i) ==
 (***************************************************************************)
 CONSTANTS MaxOps, Vals
 InitT == (1 :> [a |-> 1, b |-> 1, del |-> FALSE]) @@ (2 :> [a |-> 2, b |-> 2, del |-> TRUE])
-InitC == (<<1, 1>> :> [a |-> 1, b |-> 1]) @@ (<<2, 1>> :> [a |-> 2, b |-> 2])
+InitC == (<<1, 1>> :> [a |-> 1, b |-> 1, u |-> 11]) @@ (<<2, 1>> :> [a |-> 2, b |-> 2, u |-> 21])
 InitSt == [t |-> InitT, next |-> 3, c |-> InitC]
 Ops ==   {[op |-> "save", id |-> i, a |-> a, b |-> b] : i \in 0..3, a \in Vals, b \in {0} \cup Vals}
     \cup {[op |-> "upsert", id |-> i, a |-> a, b |-> b, rule |-> r] : i \in 1..3, a \in Vals, b \in Vals, r \in {"nothing", "all", "ca", "cb", "cab"}}
     \cup {[op |-> f, ca |-> c, attr |-> at, asg |-> as] : f \in {"foi", "foc"}, c \in Vals \cup {3}, at \in {0, 5}, as \in {0, 7}}
     \cup {[op |-> "savec", k1 |-> k1, k2 |-> k2, a |-> 9, b |-> b] : k1 \in {1, 3}, k2 \in {0, 1}, b \in {0, 8}}
+    \cup {[op |-> "upsertu", k1 |-> 5, k2 |-> k2, u |-> u, a |-> 9, b |-> b] : k2 \in {1, 2}, u \in {11, 99}, b \in {0, 8}}
 VARIABLES st, hist
 Init == st = InitSt /\ hist = <<>>
 \* a key with a zero part is "no full key": Save inserts, so such a key is saved only while it is free
-Admissible(o) == o.op = "savec" /\ (o.k1 = 0 \/ o.k2 = 0) => <<o.k1, o.k2>> \notin DOMAIN st.c
+Admissible(o) == /\ (o.op = "savec" /\ (o.k1 = 0 \/ o.k2 = 0) => <<o.k1, o.k2>> \notin DOMAIN st.c)
+                 /\ (o.op = "upsertu" => <<o.k1, o.k2>> \notin DOMAIN st.c)       \* the incoming key itself is new
 Next == /\ Len(hist) < MaxOps
         /\ \E o \in Ops : Admissible(o) /\ LET s2 == Step(st, o) IN st' = Strip(s2) /\ hist' = Append(hist, o)
 Spec == Init /\ [][Next]_<<st, hist>>
@@ -106,6 +118,9 @@ InitNeverWrites == \A o \in {x \in Ops : x.op = "foi"} : Step(st, o).t = st.t /\
 CreateAtMostOne == \A o \in {x \in Ops : x.op = "foc"} : Cardinality(Step(st, o).wrote) <= 1
 SaveCompositeIdempotent == \A o \in {x \in Ops : x.op = "savec" /\ x.k1 # 0 /\ x.k2 # 0} :
                      LET s1 == Step(st, o) IN Step(Strip(s1), o).c = s1.c /\ s1.t = st.t
+\* an upsert on a unique non-key column never changes the key of the row it hits
+UpsertKeepsKeys == \A o \in {x \in Ops : x.op = "upsertu" /\ <<x.k1, x.k2>> \notin DOMAIN st.c} :
+                     DOMAIN st.c \subseteq DOMAIN Step(st, o).c
 DoNothingKeeps == \A o \in {x \in Ops : x.op = "upsert" /\ x.rule = "nothing"} :
                      o.id \in DOMAIN st.t => Step(st, o).t = st.t
 =============================================================================
